@@ -193,6 +193,19 @@ def enumerations(tier, shard, nshards):
             c["nofile"] = 64 if tier == "quick" else 128
             yield c
 
+        def bigbatch():
+            n = 900
+            for cores in (1, 2):
+                c = tiny_case(2, cores, 0)
+                c["gaf"] = [TINY_GAF[i % 2].replace("ra\t", "w%d\t" % i).replace("rb\t", "w%d\t" % i) + "\tzq:Z:" + "k" * 60 for i in range(n)]
+                c["fasta"] = "".join(">w%d\n%s\n" % (i, "GTACGTAAGGCA" if i % 2 == 0 else "GGCAATTAC") for i in range(n))
+                c["kind"] = "real"
+                c["batch"] = 0  # the production batch size (1000): all 900 records in one worker, > 64 KiB of results in flight
+                yield c
+
+        yield ("real multiprocessing: 900 records in a single default-size batch (results exceed the pipe buffer), cores 1 and 2",
+               bigbatch(), True)
+
         def longs():
             import random
 
